@@ -279,7 +279,11 @@ static mi_decl_noinline void* mi_arena_try_alloc_at(mi_arena_t* arena, size_t ar
       const size_t stat_commit_size = commit_size - mi_arena_block_size(already_committed);
       bool commit_zero = false;
       if (!_mi_os_commit_ex(p, commit_size, &commit_zero, stat_commit_size)) {
+        // the commit failed: the range must not stay marked as committed or a later allocation is handed inaccessible memory;
+        // pretend the range is fully uncommitted (as for a partially committed range below)
         memid->initially_committed = false;
+        if (already_committed > 0) { _mi_stat_decrease(&_mi_stats_main.committed, mi_arena_block_size(already_committed)); }
+        _mi_bitmap_unclaim_across(arena->blocks_committed, arena->field_count, needed_bcount, bitmap_index);
       }
       else {
         if (commit_zero) { memid->initially_zero = true; }
